@@ -28,6 +28,10 @@ pub trait Connector: Send + Sync {
         ctx: ContextRef,
     ) -> Result<(), Error>;
     fn name(&self) -> &str;
+    /// names of the connectors this one forwards to (empty unless it is a load balancer)
+    fn members(&self) -> &[String] {
+        &[]
+    }
     fn features(&self) -> &[Feature] {
         &[Feature::TcpForward]
     }
